@@ -4,6 +4,8 @@
 package c14
 
 import (
+	"bytes"
+	"encoding/json"
 	"fmt"
 	"go/token"
 	"os"
@@ -21,7 +23,10 @@ import (
 	"github.com/nspcc-dev/neo-go/pkg/smartcontract/scparser"
 	"github.com/nspcc-dev/neo-go/pkg/vm/opcode"
 	"github.com/nspcc-dev/neo-go/verifharness/vlib/ev"
+	"github.com/nspcc-dev/neo-go/verifharness/vlib/rng"
 )
+
+const skipNoDeploy = "skipped: _deploy is not in the manifest"
 
 const (
 	sigLeftover      = "stack-hygiene:temporaries-left-after-recovered-panic:return-count"
@@ -49,7 +54,7 @@ func expNames(p *program) []string {
 
 // It also counts the methods with a receiver and the functions with names
 // outside ASCII that were found in the debug information.
-func checkManifest(p *program, c compiled) (fs []finding, checked, methods, nonASCII int) {
+func checkManifest(p *program, c compiled) (fs []finding, checked, methods, nonASCII, docs int) {
 	add := func(sig, f string, a ...any) { fs = append(fs, finding{sig: sig, detail: fmt.Sprintf(f, a...)}) }
 	script := c.nef.Script
 	// instruction boundaries
@@ -128,6 +133,28 @@ func checkManifest(p *program, c compiled) (fs []finding, checked, methods, nonA
 			add("debug:range-start-differs-from-manifest-offset", "%s: debug %d, manifest %d", f.name, c.di.Methods[di].Range.Start, md.Offset)
 		}
 	}
+	if p.deploy {
+		// `_deploy(data any, isUpdate bool)` of the source: the Management contract
+		// runs what the manifest names so
+		checked++
+		md := c.m.ABI.GetMethod(manifest.MethodDeploy, -1)
+		di, inDbg := dbg[manifest.MethodDeploy]
+		switch {
+		case md == nil:
+			add("manifest:deploy-function-missing", "the source declares _deploy(data any, isUpdate bool), the manifest does not name it (debug information: %v)", inDbg)
+		case len(md.Parameters) != 2 || md.Parameters[0].Type != smartcontract.AnyType || md.Parameters[1].Type != smartcontract.BoolType || md.ReturnType != smartcontract.VoidType:
+			add("manifest:deploy-function-signature", "_deploy is %v -> %s in the manifest", md.Parameters, md.ReturnType)
+		case bound[md.Offset] != opcode.INITSLOT || int(params[md.Offset][1]) != 2:
+			add("manifest:deploy-function-offset", "offset %d holds %s %x, expected INITSLOT taking 2 arguments", md.Offset, bound[md.Offset], params[md.Offset])
+		case !inDbg:
+			add("debug:deploy-function-missing", "_deploy is in the manifest at %d, not in the debug information", md.Offset)
+		case int(c.di.Methods[di].Range.Start) != md.Offset:
+			add("debug:range-start-differs-from-manifest-offset", "_deploy: debug %d, manifest %d", c.di.Methods[di].Range.Start, md.Offset)
+		case bound[int(c.di.Methods[di].Range.End)] != opcode.RET:
+			add("debug:range-does-not-end-with-RET", "_deploy: [%d,%d]", c.di.Methods[di].Range.Start, c.di.Methods[di].Range.End)
+		}
+		want[manifest.MethodDeploy] = true
+	}
 	for _, md := range c.m.ABI.Methods {
 		if md.Name == manifest.MethodInit {
 			if i, ok := dbg[manifest.MethodInit]; !ok || int(c.di.Methods[i].Range.Start) != md.Offset {
@@ -204,6 +231,18 @@ func checkManifest(p *program, c compiled) (fs []finding, checked, methods, nonA
 			if f.lines[0] > 0 && sp.Document == 0 && len(c.di.Documents) == 1 && (sp.StartLine < f.lines[0] || sp.EndLine > f.lines[1]) {
 				add("debug:sequence-point-outside-function-source", "%s: lines %d-%d, function spans %d-%d", id, sp.StartLine, sp.EndLine, f.lines[0], f.lines[1])
 				break
+			}
+			// a package of several files: a point inside one of the package's own
+			// files lies in the file, and on the lines, of the function
+			if p.dirCompile && f.lines[0] > 0 && sp.Document >= 0 && sp.Document < len(c.di.Documents) {
+				doc := c.di.Documents[sp.Document]
+				if filepath.Base(filepath.Dir(doc)) == p.pkg {
+					docs++
+					if filepath.Base(doc) != f.file || sp.StartLine < f.lines[0] || sp.EndLine > f.lines[1] {
+						add("debug:sequence-point-outside-function-source", "%s: %s lines %d-%d, the function spans %s lines %d-%d", id, filepath.Base(doc), sp.StartLine, sp.EndLine, f.file, f.lines[0], f.lines[1])
+						break
+					}
+				}
 			}
 		}
 	}
@@ -293,13 +332,14 @@ type stats struct {
 }
 
 func TestCheck(t *testing.T) {
-	run := ev.Start("C14", "one case = one call (program, exported function, argument tuple) executed by the Go toolchain, on a bare VM through the manifest offset, and as a deployed contract through System.Contract.Call; programs come from a seeded grammar-based generator of the documented dialect plus a fixed list of directed programs; a case is distinct by (construct set of its program, function, outcome class) and non-trivial when all three executors ran it")
+	run := ev.Start("C14", "one case = one call (program, exported function, argument tuple, optionally after _deploy) executed by the Go toolchain, on a bare VM through the manifest offset, and as a deployed contract through System.Contract.Call; programs come from a seeded grammar-based generator of the documented dialect, each laid out as a contract package of one to three files with seeded names (some with a sub-package of their own) and compiled from that directory, plus a fixed list of directed programs; a case is distinct by (construct set and layout of its program, function, outcome class) and non-trivial when all three executors ran it (two for the calls after _deploy)")
 	defer run.Finish()
 	run.Assume("the Go toolchain (go build, offline, scratch module without dependencies) is the reference semantics")
 	run.Assume("overflow is excluded by construction: every integer expression carries an interval and is reduced with % m before it can leave 61 bits")
 	run.Assume("Go leaves the order of a variable read relative to a call in the same expression unspecified: a statement either reads shared state and calls only pure functions, or calls anything and reads only locals")
 	run.Assume("outside the documented dialect and not generated: closures (function literals are generated, they see their own parameters and package state only), goroutines, channels, new, two-value type assertions, struct values (pointers only), sub-slices of non-byte slices, panics in a return statement of a function with defer")
 	run.Assume("the manifest name of an exported function is its Go name with the first rune lower-cased (unicode.ToLower); a procedure is Void in the manifest, leaves nothing on a bare VM and hands Null to the caller of System.Contract.Call")
+	run.Assume("where a top-level declaration stands (file, position in the file) does not change a Go program, except for the initialisation order of independent package variables, which the layouts keep; _deploy(data any, isUpdate bool) is what the manifest must name _deploy with (Any, Boolean) -> Void, and its effect on package state is observed by running it in the same bare VM between _initialize and the called method (natively: a call of _deploy before the call)")
 	run.Assume("constructs that were found to deviate are kept out of the random programs and exercised by directed programs with their own signatures (see directed_test.go)")
 
 	nprog := ev.Pick(150, 4000)
@@ -316,10 +356,20 @@ func TestCheck(t *testing.T) {
 		if !run.Want(id) {
 			continue
 		}
-		wanted = append(wanted, genProgram(base+i, tuples))
+		p := genProgram(base+i, tuples)
+		if os.Getenv("C14_FLAT") != "" {
+			// development aid: the programs as the generator wrote them, one file each
+			wanted = append(wanted, p)
+			continue
+		}
+		if err := p.layOut(rng.New(uint64(base+i)+17_000_000), true); err != nil {
+			t.Fatalf("%s: generated source does not parse: %v", id, err)
+		}
+		p.addLayoutCalls(rng.New(uint64(base+i) + 18_000_000))
+		wanted = append(wanted, p)
 	}
 	var directedW []*program
-	for i, d := range directed {
+	for i, d := range append(directed[:len(directed):len(directed)], directedInside...) {
 		if run.Want("directed:" + d.name) {
 			directedW = append(directedW, d.program(900_000_000+i))
 		}
@@ -335,6 +385,10 @@ func TestCheck(t *testing.T) {
 	}
 	st := &stats{feat: map[string]int{}}
 	tmp := t.TempDir()
+	if err := newVMRoot(filepath.Join(tmp, "vm")); err != nil {
+		t.Fatalf("module for directory compilation: %v", err)
+	}
+	vmRoot = filepath.Join(tmp, "vm")
 	par := max(2, min(4, runtime.NumCPU()/4))
 	sem := make(chan struct{}, par)
 	var wg sync.WaitGroup
@@ -357,15 +411,18 @@ func TestCheck(t *testing.T) {
 }
 
 type progResult struct {
-	c       compiled
-	hash    [20]byte
-	bare    []vmOutcome
-	con     []vmOutcome
-	mf      []finding
-	mfN     int
+	c                  compiled
+	nondet             string
+	twice              bool
+	hash               [20]byte
+	bare               []vmOutcome
+	con                []vmOutcome
+	mf                 []finding
+	mfN                int
 	mfMeth, mfNonASCII int
-	depErr  error
-	skipped bool
+	mfDocs             int
+	depErr             error
+	skipped            bool
 }
 
 func runBatch(t *testing.T, run *ev.Run, st *stats, dir string, progs []*program) {
@@ -394,7 +451,20 @@ func runBatch(t *testing.T, run *ev.Run, st *stats, dir string, progs []*program
 			if r.c.err != nil {
 				return
 			}
-			r.mf, r.mfN, r.mfMeth, r.mfNonASCII = checkManifest(p, r.c)
+			// the compiler is a function of its input: a second compilation of the
+			// same files gives the same bytecode and the same manifest
+			if c2 := compileProg(p); c2.err == nil {
+				m1, _ := json.Marshal(r.c.m)
+				m2, _ := json.Marshal(c2.m)
+				switch {
+				case !bytes.Equal(r.c.nef.Script, c2.nef.Script):
+					r.nondet = fmt.Sprintf("scripts of two compilations differ (%d and %d bytes, checksums %08x and %08x)", len(r.c.nef.Script), len(c2.nef.Script), r.c.nef.Checksum, c2.nef.Checksum)
+				case !bytes.Equal(m1, m2):
+					r.nondet = "manifests of two compilations differ"
+				}
+				r.twice = true
+			}
+			r.mf, r.mfN, r.mfMeth, r.mfNonASCII, r.mfDocs = checkManifest(p, r.c)
 			r.bare = make([]vmOutcome, len(p.calls))
 			for ci, cs := range p.calls {
 				f := p.fn(cs.Fn)
@@ -408,7 +478,12 @@ func runBatch(t *testing.T, run *ev.Run, st *stats, dir string, progs []*program
 					r.bare[ci] = vmOutcome{fault: "harness: manifest return type differs in voidness"}
 					continue
 				}
-				r.bare[ci] = runBare(r.c, md, cs.Args, f.ret0())
+				if cs.Pre != "" && r.c.m.ABI.GetMethod(manifest.MethodDeploy, 2) == nil {
+					// reported by the manifest clause
+					r.bare[ci] = vmOutcome{fault: skipNoDeploy}
+					continue
+				}
+				r.bare[ci] = runBare(r.c, md, cs.Args, f.ret0(), cs.Pre)
 			}
 		}()
 	}
@@ -440,6 +515,11 @@ func runBatch(t *testing.T, run *ev.Run, st *stats, dir string, progs []*program
 			}
 			r.con = make([]vmOutcome, len(p.calls))
 			for ci, cs := range p.calls {
+				if cs.Pre != "" {
+					// package state does not outlive an invocation: what _deploy left
+					// is visible on the bare VM only
+					continue
+				}
 				r.con[ci] = ce.call(r.hash, lowerFirst(cs.Fn), cs.Args, p.fn(cs.Fn).ret0())
 			}
 		}()
@@ -477,6 +557,10 @@ func judge(run *ev.Run, st *stats, p *program, r *progResult, nb *nativeBatch) {
 	id := p.caseID()
 	wit := func(extra map[string]any) map[string]any {
 		w := map[string]any{"program": p.pkg, "source": p.src, "constructs": p.feat}
+		if p.dirCompile {
+			w["files"] = p.files
+			w["compiled_as"] = "directory (compiler.CompileWithOptions(dir, nil, opts)), files in the order of their names, imported packages first"
+		}
 		for k, v := range extra {
 			w[k] = v
 		}
@@ -489,11 +573,15 @@ func judge(run *ev.Run, st *stats, p *program, r *progResult, nb *nativeBatch) {
 		run.Obs("programs_rejected_by_go", 1)
 		return
 	}
+	if r.c.harnessErr != nil {
+		run.Inconclusive("%s: the package directory could not be written: %v", p.pkg, r.c.harnessErr)
+		return
+	}
 	if r.c.err != nil {
 		cls := faultClass(posRe.ReplaceAllString(r.c.err.Error(), ""))
 		run.Obs("programs_rejected_by_compiler", 1)
 		sig := "compiler-rejects-program-go-accepts:" + cls
-		if p.directed != "" {
+		if p.directed != "" && !p.regress {
 			sig = "dialect-gap:" + p.directed + ":compiler-rejects"
 		}
 		run.Violation(sig, id, r.c.err.Error(), wit(nil))
@@ -503,6 +591,25 @@ func judge(run *ev.Run, st *stats, p *program, r *progResult, nb *nativeBatch) {
 	run.Obs("manifest_and_debug_methods_checked", int64(r.mfN))
 	run.Obs("debug_methods_with_receiver_checked", int64(r.mfMeth))
 	run.Obs("debug_methods_with_non_ascii_name_checked", int64(r.mfNonASCII))
+	run.Obs("debug_sequence_points_checked_against_the_file_of_their_function", int64(r.mfDocs))
+	if p.dirCompile {
+		run.Obs("programs_compiled_from_a_directory", 1)
+		run.Obs("program_files_compiled_from_directories", int64(len(p.files)))
+	}
+	if p.aux != nil {
+		run.Obs("programs_importing_a_package_of_their_own", 1)
+	}
+	if p.deploy {
+		run.Obs("programs_with_deploy_function", 1)
+		for _, f := range p.feat {
+			switch f {
+			case "deploy-function:after-file-with-defer":
+				run.Obs("programs_with_deploy_function_compiled_after_a_file_with_defer", 1)
+			case "deploy-function:before-every-file-with-defer":
+				run.Obs("programs_with_deploy_function_compiled_before_every_file_with_defer", 1)
+			}
+		}
+	}
 	for _, f := range p.exported {
 		if !isASCII(f.name) {
 			run.Obs("manifest_methods_with_non_ascii_name_checked", 1)
@@ -521,9 +628,15 @@ func judge(run *ev.Run, st *stats, p *program, r *progResult, nb *nativeBatch) {
 		st.feat[f]++
 	}
 	st.mu.Unlock()
+	if r.twice {
+		run.Obs("programs_compiled_twice_and_compared", 1)
+	}
+	if r.nondet != "" {
+		run.Violation("compile:output-differs-between-compilations", id, r.nondet, wit(nil))
+	}
 	for _, f := range r.mf {
 		sig := f.sig
-		if p.directed != "" {
+		if p.directed != "" && !p.regress {
 			sig = "dialect-gap:" + p.directed
 			f.detail = f.sig + ": " + f.detail
 		}
@@ -542,6 +655,21 @@ func judge(run *ev.Run, st *stats, p *program, r *progResult, nb *nativeBatch) {
 			continue
 		}
 		n, b, c := nat[ci], r.bare[ci], r.con[ci]
+		if b.fault == skipNoDeploy {
+			run.Obs("calls_after_deploy_skipped_deploy_not_in_manifest", 1)
+			continue
+		}
+		if cs.Pre != "" {
+			c = b
+			if b.fault == "" && b.n != 1 {
+				// what System.Contract.Call would say
+				c = vmOutcome{fault: "invalid return values count"}
+			}
+			if b.fault == "" && b.n == 0 && p.fn(cs.Fn).ret0() == tVoid {
+				c = vmOutcome{n: 1, val: "v:", valOK: true}
+			}
+			run.Obs("calls_after_deploy_function_in_the_same_vm", 1)
+		}
 		if strings.HasPrefix(b.fault, "harness:") || strings.HasPrefix(c.fault, "harness:") {
 			run.Inconclusive("%s call %d: %s %s", p.pkg, ci, b.fault, c.fault)
 			continue
@@ -572,6 +700,9 @@ func judge(run *ev.Run, st *stats, p *program, r *progResult, nb *nativeBatch) {
 		run.Obs("calls", 1)
 		run.Obs("vm_instructions", int64(b.steps))
 		run.ObsMax("vm_instructions_max_per_call", int64(b.steps))
+		if cs.Pre != "" {
+			cls += "+after-" + cs.Pre
+		}
 		run.Case(fsig+"|"+cs.Fn+"|"+cls, true)
 		if sig == "" {
 			run.Obs("calls_agreeing", 1)
@@ -580,11 +711,14 @@ func judge(run *ev.Run, st *stats, p *program, r *progResult, nb *nativeBatch) {
 			}
 			continue
 		}
-		if p.directed != "" && sig != sigLeftover && sig != sigLeftoverLater {
+		if p.directed != "" && !p.regress && sig != sigLeftover && sig != sigLeftoverLater {
 			sig = "dialect-gap:" + p.directed
 		}
+		if cs.Pre != "" {
+			detail = "after _deploy(nil, " + fmt.Sprint(cs.Pre == "update") + ") in the same VM: " + detail
+		}
 		run.Violation(sig, id, fmt.Sprintf("%s.%s%s: %s", p.pkg, cs.Fn, argsStr(cs.Args), detail), wit(map[string]any{
-			"function": cs.Fn, "args": cs.Args, "call_index": ci, "go": natStr(n),
+			"function": cs.Fn, "args": cs.Args, "call_index": ci, "go": natStr(n), "after_deploy": cs.Pre,
 			"bare_vm":       map[string]any{"fault": b.fault, "stack_bottom_to_top": b.stack, "stale_items_at_catch": b.leftover, "catches": b.catches},
 			"contract_call": map[string]any{"fault": c.fault, "stack": c.stack},
 		}))
@@ -612,6 +746,10 @@ func genObs(k string) string {
 		return "guarded_boolean_operands_used_as_values"
 	case strings.HasPrefix(k, "guarded-operand:") && k != "guarded-operand:nested-or-mixed":
 		return "guarded_boolean_operands"
+	case k == "keyed-literal":
+		return "keyed_literal_templates"
+	case k == "literal-element-without-key-after-key":
+		return "literal_elements_without_key_following_a_keyed_element"
 	case k == "lambda":
 		return "function_literals"
 	case k == "lambda-procedure":
